@@ -318,10 +318,10 @@ func init() {
 	})
 	// ------------------------------------------------------------------ C19
 	register(&Prop{
-		ID: "C19", Level: "proof", Technique: "static effect analysis: return provenance (R-FRESH), write-once package state (R-GLOBAL), receivers defined before read (R-INIT)",
-		Explanation: "Every pointer/slice result of every exported function is a fresh object, the receiver itself, or nil — never a package-level variable, a table, an interior pointer or a shared buffer; no call changes package state after initialisation, so no history is remembered; no result depends on a receiver's prior content.",
+		ID: "C19", Level: "proof", Technique: "static effect analysis: return provenance (R-FRESH), write-once package state (R-GLOBAL), receivers defined before read (R-INIT), no effect on arguments (R-RO)",
+		Explanation: "Every pointer/slice result of every exported function is a fresh object, the receiver itself, or nil — never a package-level variable, a table, an interior pointer or a shared buffer; no call changes package state after initialisation, so no history is remembered; no result depends on a receiver's prior content; no call writes its arguments (so repeating a call repeats its result).",
 		TrustedBase: trustedCommon,
-		Exceptions:  []report.Exception{swapInit},
+		Exceptions:  []report.Exception{swapInit, swapExceptions[1], swapRecvRO},
 		Floors:      []report.Floor{{Rule: "R-FRESH", Min: 54}, {Rule: "R-GLOBAL", Min: 156}, {Rule: "R-INIT", Min: 36}},
 		Build: func(c *Ctx) {
 			for _, cfg := range c.Configs() {
@@ -333,6 +333,9 @@ func init() {
 				c.addAll(a.RGlobal())
 				c.addAll(a.RInitReceivers(nil))
 				c.addAll(a.RDefined())
+				// a pure function has no effect on its arguments either: a call that rewrites the caller's slices or
+				// operands makes the next identical-looking call compute something else
+				c.addAll(a.RReadOnly())
 				c.ruleShape(cfg)
 			}
 		},
